@@ -199,6 +199,15 @@ impl SeekableDecoder {
     pub fn new<T: Read + Send + 'static>(decoder: T, size: ASize) -> Self {
         let (write_hand, read_hand) = create_sync_vec(size.into_usize());
 
+        // Under loom, the decoder runs in a loom thread instead of the rayon pool.
+        #[cfg(jubako_verif_loom)]
+        loom::thread::Builder::new()
+            .stack_size(0x80000)
+            .spawn(move || {
+                let _ = decode_to_end(decoder, write_hand, crate::verif::decode_chunk_size());
+            })
+            .expect("Success to launch thread");
+        #[cfg(not(jubako_verif_loom))]
         DECOMPRESSION_POOL
             .get_or_init(|| {
                 rayon::ThreadPoolBuilder::new()
